@@ -13,6 +13,9 @@ import XotModel.Driver.Axes
 import XotModel.Driver.Output
 import XotModel.Driver.Scope
 import XotModel.Driver.Ffixed
+import XotModel.Driver.Fmap
+import XotModel.Driver.Parse
+import XotModel.Driver.Fclone
 
 open XotModel.Driver
 
@@ -26,6 +29,7 @@ def dispatch (st : DState) (line : String) : DState × String :=
   | "axes" :: rest => (st, (handleAxes rest).getD "bad-request")
   | "ser" :: rest => (st, (handleSer st rest).getD "bad-request")
   | "scope" :: rest => (st, (handleScope st rest).getD "bad-request")
+  | "build" :: rest => (st, (handleBuild st rest).getD "bad-request")
   | _ => (st, "bad-request")
 
 structure MState where
@@ -38,7 +42,11 @@ def dispatchAll (st : MState) (line : String) : MState × String :=
   | "forest" :: "specx" :: rest => (st, (handleFspec st.forest ("specx" :: rest)).getD "bad-request")
   | "forest" :: "fixed" :: rest => (match handleFfixed st.forest rest with | some (fs, resp) => ({ st with forest := fs }, resp) | none => (st, "bad-request"))
   | "forest" :: rest =>
-    (match handleForest st.forest rest with
+    (match (handleFclone st.d.env st.forest rest).orElse (fun _ => handleForest st.forest rest) with
+     | some (fs, resp) => ({ st with forest := fs }, resp)
+     | none => (st, "bad-request"))
+  | "fmap" :: rest =>
+    (match handleFmap st.forest rest with
      | some (fs, resp) => ({ st with forest := fs }, resp)
      | none => (st, "bad-request"))
   | _ =>
